@@ -10,7 +10,9 @@
 //! line:  CP <id> <family> <ntowers> <max_retry_s> <auto_retry_s> <max_interval_s> <nsteps> <step>* END
 //! step:  S <kind> <a> <b> RES <code> <ms> OBS <observation>
 //!   kind 1 REG t cls (register classes 0 good 1 badsig 2 same-expiry 3 garbage 4 api-error 5 no-more-slots 6 more-slots-same-expiry 7 receipt-of-another-user 20 down) | 2 MODE t cls (cls >= 100: register class cls-100) | 3 UP t 0/1 | 4 REV l 0 | 5 SETTLE 0 0 | 6 SLEEP ms 0 | 7 RETRY t 0
-//!        | 8 ABANDON t 0 | 9 KILL 0 0 | 10 START 0 0 | 11 REVNOWAIT l 0 | 12 WAKE 0 0
+//!        | 8 ABANDON t 0 | 9 KILL 0 0 / KILL t ms (ms > 0: at the first database sample that shows a pair of tower t with BOTH a receipt
+//!          and a pending row - the interrupted pending -> accepted move -, after ms at the latest) | 10 START 0 0 | 11 REVNOWAIT l 0
+//!        | 12 WAKE 0 0 | 13 WAITSTATUS t status | 14 WAITREQ t l (until tower t has seen an add_appointment of locator l)
 //!   RES code: 0 ok / accepted, 1 error reply, 2 no answer within the timeout, 3 not applicable; ms = duration of the step
 //! observation (ints):
 //!   alive now_ms
@@ -119,6 +121,7 @@ const A_HUGE: u64 = 8; // 1 MB of text
 const A_RESET: u64 = 9; // connection closed without an answer
 const A_WRONGTYPES: u64 = 10; // the right keys with wrong types
 const A_HOLD: u64 = 11; // accept, but hold the reply until the class of the tower is changed (MODE t <other>), 30 s at most
+const A_UTF8: u64 = 12; // not JSON: an HTML error page longer than 256 bytes made of multi-byte characters (see utf8_page)
 // reply classes of register
 const R_GOOD: u64 = 0;
 const R_BADSIG: u64 = 1;
@@ -128,6 +131,7 @@ const R_APIERR: u64 = 4;
 const R_NOTEXT_SLOTS: u64 = 5; // a valid receipt with a later expiry but no more slots than the client knows
 const R_NOTEXT_EXPIRY: u64 = 6; // a valid receipt with more slots but the expiry the client already knows
 const R_FOREIGN: u64 = 7; // a receipt the tower signed correctly, strictly extending, but for ANOTHER user (user_id of the reply = another key)
+const R_UTF8: u64 = 8; // not JSON: the multi-byte HTML error page (see utf8_page)
 const C_DOWN: u64 = 20; // not listening (connection refused) — never logged by the tower, used in scripts only
 
 struct LogEntry {
@@ -145,6 +149,19 @@ struct TowerState {
     gen: u32,
     log: Vec<LogEntry>,
     last_ms: u64,
+    utf8_n: u64,            // how many multi-byte error pages the tower has sent (selects the variant of the next one)
+    seen: Vec<(u64, i64)>,  // every (endpoint, locator) the tower has ever been asked (never drained)
+}
+
+/// An HTML error page in a language that needs multi-byte characters, longer than 256 bytes.  After `variant % 3` ASCII bytes
+/// every character takes three bytes, so for EVERY byte offset (250..260 in particular) two of the three variants have that
+/// offset inside a character: whoever cuts the body at a fixed byte offset hits the middle of a character.
+fn utf8_page(variant: u64) -> String {
+    let mut s = "<".repeat((variant % 3) as usize);
+    while s.len() < 420 {
+        s.push_str("サーバーエラー。しばらくしてからもう一度お試しください。");
+    }
+    s
 }
 
 struct FakeTower {
@@ -165,7 +182,7 @@ impl FakeTower {
         let l = TcpListener::bind("127.0.0.1:0").await.unwrap();
         let port = l.local_addr().unwrap().port();
         drop(l);
-        let st = Arc::new(Mutex::new(TowerState { add: A_ACCEPT, reg: R_GOOD, gen: 0, log: Vec::new(), last_ms: 0 }));
+        let st = Arc::new(Mutex::new(TowerState { add: A_ACCEPT, reg: R_GOOD, gen: 0, log: Vec::new(), last_ms: 0, utf8_n: 0, seen: Vec::new() }));
         let mut t = FakeTower { id, port, st, task: None, t0 };
         t.up().await;
         t
@@ -283,8 +300,13 @@ async fn handle_conn(mut s: tokio::net::TcpStream, st: Arc<Mutex<TowerState>>, i
                     .unwrap()
                 }
                 (R_APIERR, _) => json!({"error": "no slots", "error_code": 65}).to_string(),
+                (R_UTF8, _) => {
+                    g.utf8_n += 1;
+                    utf8_page(g.utf8_n - 1)
+                }
                 _ => "<html>this is not json</html>".to_string(),
             });
+            g.seen.push((0, -1));
             g.log.push(LogEntry { t: id, ep: 0, l: -1, cls, ms, v: vals });
         } else if path == "/add_appointment" {
             let cls = g.add;
@@ -294,6 +316,7 @@ async fn handle_conn(mut s: tokio::net::TcpStream, st: Arc<Mutex<TowerState>>, i
             let has_receipt = matches!(cls, A_ACCEPT | A_WRONGKEY | A_BADSIG | A_HOLD);
             // (a held reply is an acceptance: it is logged as such, at the time the request arrived)
             held = cls == A_HOLD;
+            g.seen.push((1, loc));
             g.log.push(LogEntry { t: id, ep: 1, l: loc, cls: if held { A_ACCEPT } else { cls }, ms, v: (if has_receipt { slots } else { 0 }, 0, 0) });
             reply = match cls {
                 A_ACCEPT | A_WRONGKEY | A_BADSIG | A_HOLD => {
@@ -321,6 +344,10 @@ async fn handle_conn(mut s: tokio::net::TcpStream, st: Arc<Mutex<TowerState>>, i
                 ),
                 A_EMPTY => Some(String::new()),
                 A_HUGE => Some("a".repeat(1 << 20)),
+                A_UTF8 => {
+                    g.utf8_n += 1;
+                    Some(utf8_page(g.utf8_n - 1))
+                }
                 _ => None,
             };
         } else {
@@ -469,6 +496,11 @@ const K_START: u64 = 10;
 const K_REVNOWAIT: u64 = 11;
 const K_WAKE: u64 = 12;
 const K_WAITSTATUS: u64 = 13; // wait (15 s at most) until listtowers shows tower a with status b
+const K_WAITREQ: u64 = 14; // wait (15 s at most) until tower a has seen an add_appointment of locator b (answered or held)
+
+extern "C" {
+    fn kill(pid: i32, sig: i32) -> i32;
+}
 
 fn status_code(s: &str) -> i64 {
     match s {
@@ -499,6 +531,13 @@ struct Sampler {
     period_us: Arc<AtomicU64>,
     shared: Arc<Mutex<SampShared>>,
     handle: Option<std::thread::JoinHandle<()>>,
+    // ARMED (pid != 0): the sampler reads back to back, every sample inside an explicit read transaction, and the moment a sample
+    // shows a pair of `arm_tower` with BOTH a receipt and a pending row it SIGKILLs the plugin while it still holds the read
+    // transaction (SQLite cannot commit the delete of the pending row as long as a reader is there): the process dies in the
+    // intermediate durable state of the pending -> accepted move.
+    arm_pid: Arc<AtomicU64>,
+    arm_tower: Arc<AtomicU64>,
+    arm_hit: Arc<AtomicBool>,
 }
 impl Sampler {
     fn start(db: PathBuf, t0: Instant, period_us: u64) -> Sampler {
@@ -506,8 +545,13 @@ impl Sampler {
         let period = Arc::new(AtomicU64::new(period_us));
         let shared = Arc::new(Mutex::new(SampShared::default()));
         let (stop2, period2, shared2) = (stop.clone(), period.clone(), shared.clone());
+        let arm_pid = Arc::new(AtomicU64::new(0));
+        let arm_tower = Arc::new(AtomicU64::new(0));
+        let arm_hit = Arc::new(AtomicBool::new(false));
+        let (arm_pid2, arm_tower2, arm_hit2) = (arm_pid.clone(), arm_tower.clone(), arm_hit.clone());
         let handle = std::thread::spawn(move || {
             let mut conn: Option<Connection> = None;
+            let mut was_armed = false;
             // per pair: bit 1 receipt, 2 pending, 4 invalid (last sample); history flags
             let mut seen: HashMap<(i64, i64), u8> = HashMap::new();
             let mut was_pending: HashSet<(i64, i64)> = HashSet::new();
@@ -528,11 +572,22 @@ impl Sampler {
                         continue;
                     }
                 }
+                let pid = arm_pid2.load(Ordering::Relaxed);
+                let armed = pid != 0;
+                if armed != was_armed {
+                    // armed: never wait for a lock (a busy database is simply not a sample), so that the next sample comes right
+                    // after the writer's commit
+                    let _ = conn.as_ref().unwrap().busy_timeout(Duration::from_millis(if armed { 0 } else { 300 }));
+                    was_armed = armed;
+                }
                 // ONE statement = one read transaction = one consistent snapshot
                 let mut towers: HashSet<i64> = HashSet::new();
                 let mut recs: HashMap<(i64, i64), u8> = HashMap::new();
                 let ok = (|| -> rusqlite::Result<()> {
                     let c = conn.as_ref().unwrap();
+                    if armed {
+                        c.execute_batch("BEGIN")?;
+                    }
                     let mut stmt = c.prepare_cached(
                         "SELECT 0, tower_id, NULL FROM towers UNION ALL SELECT 1, tower_id, locator FROM appointment_receipts \
                          UNION ALL SELECT 2, tower_id, locator FROM pending_appointments UNION ALL SELECT 4, tower_id, locator FROM invalid_appointments",
@@ -550,9 +605,28 @@ impl Sampler {
                     }
                     Ok(())
                 })();
+                if armed {
+                    if ok.is_ok() {
+                        let tw = arm_tower2.load(Ordering::Relaxed) as i64;
+                        if recs.iter().any(|(p, m)| p.0 == tw && m & 3 == 3) {
+                            unsafe {
+                                kill(pid as i32, 9);
+                            }
+                            arm_hit2.store(true, Ordering::SeqCst);
+                            arm_pid2.store(0, Ordering::SeqCst);
+                            // (the read transaction is kept until the process is certainly gone)
+                            std::thread::sleep(Duration::from_millis(40));
+                        }
+                    }
+                    let _ = conn.as_ref().unwrap().execute_batch("ROLLBACK");
+                }
                 if ok.is_err() {
-                    // busy for longer than the timeout, or the schema is not there yet: not a sample
-                    std::thread::sleep(Duration::from_micros(us.max(200)));
+                    // busy (for longer than the timeout), or the schema is not there yet: not a sample
+                    if armed {
+                        std::thread::yield_now();
+                    } else {
+                        std::thread::sleep(Duration::from_micros(us.max(200)));
+                    }
                     continue;
                 }
                 let ms = t0.elapsed().as_millis() as u64;
@@ -592,12 +666,12 @@ impl Sampler {
                     seen.insert(*p, *mask);
                 }
                 drop(g);
-                if us > 0 {
+                if us > 0 && !armed {
                     std::thread::sleep(Duration::from_micros(us));
                 }
             }
         });
-        Sampler { stop, period_us: period, shared, handle: Some(handle) }
+        Sampler { stop, period_us: period, shared, handle: Some(handle), arm_pid, arm_tower, arm_hit }
     }
     fn finish(&mut self) {
         self.stop.store(true, Ordering::Relaxed);
@@ -780,9 +854,40 @@ impl Runner {
             }
             K_KILL => {
                 if let Some(p) = self.plugin.take() {
+                    if b > 0 {
+                        // kill at the interrupted move of tower a (the sampler does it), after b ms at the latest
+                        if let Some(pid) = p.child.id() {
+                            self.sampler.arm_hit.store(false, Ordering::SeqCst);
+                            self.sampler.arm_tower.store(a, Ordering::SeqCst);
+                            self.sampler.arm_pid.store(pid as u64, Ordering::SeqCst);
+                            let since = Instant::now();
+                            while !self.sampler.arm_hit.load(Ordering::SeqCst) && since.elapsed() < Duration::from_millis(b) {
+                                tokio::time::sleep(Duration::from_millis(2)).await;
+                            }
+                            self.sampler.arm_pid.store(0, Ordering::SeqCst);
+                        }
+                    }
                     p.kill().await;
+                    // what is durable after a crash is what the next process to open the file finds once SQLite has rolled a
+                    // transaction that was being committed back: let it do so now, so that the observation of this step is that state
+                    if let Ok(c) = Connection::open_with_flags(self.db_path(), OpenFlags::SQLITE_OPEN_READ_WRITE) {
+                        let _ = c.busy_timeout(Duration::from_millis(2000));
+                        let _ = c.query_row("SELECT count(*) FROM towers", [], |r| r.get::<_, i64>(0));
+                    }
                 }
                 0
+            }
+            K_WAITREQ => {
+                let since = Instant::now();
+                loop {
+                    if self.towers[a as usize].st.lock().unwrap().seen.contains(&(1, b as i64)) {
+                        break 0;
+                    }
+                    if since.elapsed() > Duration::from_secs(15) {
+                        break 2;
+                    }
+                    tokio::time::sleep(Duration::from_millis(20)).await;
+                }
             }
             K_START => {
                 if self.plugin.is_none() {
@@ -1074,7 +1179,7 @@ fn families() -> Vec<Scenario> {
     // 1: plain acceptance by two towers, duplicate notification
     v.push(fam(1, 2, o, vec![(K_REG, 0, R_GOOD), (K_REG, 1, R_GOOD), (K_REV, 0, 0), (K_REV, 1, 0), (K_REV, 0, 0), (K_SETTLE, 0, 0)]));
     // 2: every reply class on the notification path (tower 0 scripted, tower 1 accepts)
-    for cls in [A_WRONGKEY, A_BADSIG, A_SUBERR, A_APIERR, A_GARBAGE, A_WRONGSHAPE, A_EMPTY, A_HUGE, A_RESET, A_WRONGTYPES] {
+    for cls in [A_WRONGKEY, A_BADSIG, A_SUBERR, A_APIERR, A_GARBAGE, A_WRONGSHAPE, A_EMPTY, A_HUGE, A_RESET, A_WRONGTYPES, A_UTF8] {
         v.push(fam(2, 2, o, vec![(K_REG, 0, R_GOOD), (K_REG, 1, R_GOOD), (K_MODE, 0, cls), (K_REV, 0, 0), (K_SETTLE, 0, 0), (K_REV, 1, 0), (K_SETTLE, 0, 0)]));
     }
     // 3: outage, the retrier gives up, manual retry gate, recovery by manual retry
@@ -1096,11 +1201,11 @@ fn families() -> Vec<Scenario> {
     // 9: registration gate: every reply class for a first registration and for a renewal
     v.push(fam(9, 1, o, vec![(K_REG, 0, R_NOTEXT_EXPIRY), (K_REG, 0, R_NOTEXT_EXPIRY), (K_REV, 0, 0), (K_REG, 0, R_GOOD), (K_REG, 0, R_NOTEXT_EXPIRY), (K_REV, 1, 0), (K_SETTLE, 0, 0)]));
     v.push(fam(9, 1, o, vec![(K_REG, 0, R_NOTEXT_SLOTS), (K_REG, 0, R_NOTEXT_SLOTS), (K_REV, 0, 0), (K_REG, 0, R_NOTEXT), (K_REG, 0, R_GOOD), (K_REG, 0, R_NOTEXT_SLOTS), (K_SETTLE, 0, 0)]));
-    for cls in [R_BADSIG, R_GARBAGE, R_APIERR, C_DOWN, R_FOREIGN] {
+    for cls in [R_BADSIG, R_GARBAGE, R_APIERR, C_DOWN, R_FOREIGN, R_UTF8] {
         v.push(fam(9, 1, o, vec![(K_REG, 0, cls), (K_REV, 0, 0), (K_REG, 0, R_GOOD), (K_REG, 0, cls), (K_REG, 0, R_NOTEXT), (K_REV, 1, 0), (K_REG, 0, R_GOOD), (K_SETTLE, 0, 0)]));
     }
     // 10: every reply class on the retry path (pending first, then the tower comes back answering with the class)
-    for cls in [A_WRONGKEY, A_BADSIG, A_APIERR, A_GARBAGE, A_WRONGSHAPE, A_EMPTY, A_HUGE, A_RESET, A_WRONGTYPES] {
+    for cls in [A_WRONGKEY, A_BADSIG, A_APIERR, A_GARBAGE, A_WRONGSHAPE, A_EMPTY, A_HUGE, A_RESET, A_WRONGTYPES, A_UTF8] {
         v.push(fam(10, 2, o, vec![(K_REG, 0, R_GOOD), (K_REG, 1, R_GOOD), (K_UP, 0, 0), (K_REV, 0, 0), (K_REV, 1, 0), (K_MODE, 0, cls), (K_UP, 0, 1),
                                   (K_SETTLE, 0, 0), (K_MODE, 0, A_ACCEPT), (K_RETRY, 0, 0), (K_SETTLE, 0, 0), (K_REV, 2, 0), (K_SETTLE, 0, 0)]));
     }
@@ -1172,7 +1277,7 @@ fn families() -> Vec<Scenario> {
                                       (K_MODE, 0, 100 + R_GOOD), (K_REV, 1, 0), (K_SLEEP, 11500, 0), (K_SETTLE, 0, 0)]));
     // 25: subscription error while the renewal endpoint fails transiently for longer than the retry time: the retrier gives up, the tower
     //     is shown unreachable (idle retrier), retrytower is accepted; after recovery a manual retry delivers
-    for cls in [R_GARBAGE, R_APIERR] {
+    for cls in [R_GARBAGE, R_APIERR, R_UTF8] {
         v.push(fam(25, 1, o, vec![(K_REG, 0, R_GOOD), (K_SETTLE, 0, 0), (K_MODE, 0, A_SUBERR), (K_MODE, 0, 100 + cls), (K_REV, 0, 0), (K_SLEEP, 9000, 0), (K_SETTLE, 0, 0), (K_RETRY, 0, 0),
                                   (K_SETTLE, 0, 0), (K_MODE, 0, A_ACCEPT), (K_MODE, 0, 100 + R_GOOD), (K_RETRY, 0, 0), (K_SETTLE, 0, 0)]));
     }
@@ -1198,11 +1303,23 @@ fn families() -> Vec<Scenario> {
     }
     // 27: a revocation whose handler waits for a SLOW tower X while the retrier of tower Y (down) exhausts its back-off: the handler took
     //     its status snapshot when Y was temporary unreachable and reaches Y when its retrier is idle. Every pair must still get a record.
-    //     (both role assignments, several times: the order in which the handler visits the towers is the HashMap's)
-    for i in 0..10u64 {
+    //     Nothing is left to the clock: Y's retrier runs for 6 s (the notification is sent at its very beginning), the scenario waits
+    //     until X HOLDS the request (in either visiting order X is asked: before Y, or right after it) and until listtowers shows Y
+    //     unreachable (its retrier idle), and only then lets X answer.  The order in which the handler visits the towers is the
+    //     HashMap's (random per process): both role assignments, many times.
+    for i in 0..16u64 {
         let (x, y) = if i % 2 == 0 { (0, 1) } else { (1, 0) };
-        v.push(fam(27, 2, o, vec![(K_REG, 0, R_GOOD), (K_REG, 1, R_GOOD), (K_UP, y, 0), (K_REV, 0, 0), (K_MODE, x, A_HOLD), (K_REVNOWAIT, 1, 0), (K_WAITSTATUS, y, 2),
-                                  (K_MODE, x, A_ACCEPT), (K_SETTLE, 0, 0)]));
+        v.push(fam(27, 2, (6, 30, 1), vec![(K_REG, 0, R_GOOD), (K_REG, 1, R_GOOD), (K_UP, y, 0), (K_REV, 0, 0), (K_MODE, x, A_HOLD), (K_REVNOWAIT, 1, 0),
+                                           (K_WAITREQ, x, 1), (K_WAITSTATUS, y, 2), (K_MODE, x, A_ACCEPT), (K_SETTLE, 0, 0)]));
+    }
+    // 30: a wrong-key acknowledgement for an appointment whose receipt IS ALREADY STORED: the plugin is killed in the middle of a
+    //     pending -> accepted move (receipt written, pending row not yet deleted: the sampler pulls the trigger), the tower answers with
+    //     another key's signature from then on, the restarted plugin sends the appointment again: the tower must be flagged and the stored
+    //     proof must be the offending receipt (the one stored before is replaced).  Last: the same with a tower that stays honest (the
+    //     first receipt is kept, the pending row goes).
+    for cls in [A_WRONGKEY, A_WRONGKEY, A_WRONGKEY, A_ACCEPT] {
+        v.push(fam(30, 1, o, vec![(K_REG, 0, R_GOOD), (K_UP, 0, 0), (K_REV, 0, 0), (K_SETTLE, 0, 0), (K_UP, 0, 1), (K_RETRY, 0, 0), (K_KILL, 0, 6000), (K_MODE, 0, cls),
+                                  (K_START, 0, 0), (K_SETTLE, 0, 0), (K_REV, 1, 0), (K_SETTLE, 0, 0)]));
     }
     // 28: the plugin is KILLED at some point of a bulk delivery and started again: what had a record before has one after
     for ms in [1250u64, 1400, 1550, 1700, 1850, 2000, 2150, 2300] {
@@ -1242,12 +1359,12 @@ fn random_scenario(rng: &mut Rng) -> Scenario {
                 }
                 steps.push((K_REV, l, 0));
             }
-            30..=44 => steps.push((K_MODE, t, *rng.pick(&[A_ACCEPT, A_ACCEPT, A_SUBERR, A_APIERR, A_GARBAGE, A_WRONGKEY, A_BADSIG, A_WRONGSHAPE, A_RESET]))),
+            30..=44 => steps.push((K_MODE, t, *rng.pick(&[A_ACCEPT, A_ACCEPT, A_SUBERR, A_APIERR, A_GARBAGE, A_WRONGKEY, A_BADSIG, A_WRONGSHAPE, A_RESET, A_UTF8]))),
             45..=56 => steps.push((K_UP, t, rng.below(2))),
             57..=71 => steps.push((K_SETTLE, 0, 0)),
             72..=77 => steps.push((K_RETRY, t, 0)),
             78..=81 => steps.push((K_ABANDON, t, 0)),
-            82..=87 => steps.push((K_REG, t, *rng.pick(&[R_GOOD, R_GOOD, R_BADSIG, R_NOTEXT, R_NOTEXT_SLOTS, R_NOTEXT_EXPIRY, R_GARBAGE, R_APIERR, R_FOREIGN]))),
+            82..=87 => steps.push((K_REG, t, *rng.pick(&[R_GOOD, R_GOOD, R_BADSIG, R_NOTEXT, R_NOTEXT_SLOTS, R_NOTEXT_EXPIRY, R_GARBAGE, R_APIERR, R_FOREIGN, R_UTF8]))),
             88..=92 => {
                 if rng.chance(1, 2) {
                     // a notification whose handling races with the kill
@@ -1281,8 +1398,9 @@ fn est_cost(sc: &Scenario) -> u64 {
             K_SLEEP => a,
             K_REVNOWAIT => b,
             K_SETTLE | K_WAKE => settle,
-            K_KILL | K_START => 1500,
+            K_KILL | K_START => 1500 + if k == K_KILL { b / 3 } else { 0 },
             K_WAITSTATUS => 4000,
+            K_WAITREQ => 500,
             _ => 100,
         })
         .sum()
